@@ -14,7 +14,7 @@
      compute-upstream-fully-and-add; the descent starts at the LAST stage (a cached downstream persist
      hides everything upstream of it);
    * CacheManager (dict in insertion order) and TimedCacheManager (_time_added, gc, add = add+stamp+gc,
-     join = update+stamp+gc, delete does NOT touch _time_added, clone_contains starts with an empty
+     join = update+stamp+gc, delete forgets the stamps of the ident, clone_contains starts with an empty
      _time_added); entries carry a ghost field: the time at which they were added;
    * local jobs (DummyPool, and allowLocal for first/take) and pool jobs (clone per partition taken at
      submission, task in the clone, new entries joined back in order);
@@ -138,21 +138,31 @@ Definition m_get (k : key) (m : mgr) : option (list A) :=
   match dict_get k (m_entries m) with Some (d, _) => Some d | None => None end.
 Definition m_has (k : key) (m : mgr) : bool :=
   match dict_get k (m_entries m) with Some _ => true | None => false end.
-(* CacheManager.delete: cache_obj only *)
+(* delete: CacheManager.delete removes the ident from cache_obj; TimedCacheManager.delete (repaired,
+   a58d69d) first forgets every stamp of the ident.  A CacheManager has no stamps, so one definition. *)
+Definition drop_stamps (k : key) (ta : list (key * Z)) : list (key * Z) :=
+  filter (fun kt => negb (key_eqb k (fst kt))) ta.
 Definition m_delete (k : key) (m : mgr) : mgr :=
-  Mgr (m_timeout m) (dict_del k (m_entries m)) (m_times m).
+  Mgr (m_timeout m) (dict_del k (m_entries m)) (drop_stamps k (m_times m)).
 
-(* TimedCacheManager.gc: pop the head of _time_added while its stamp is <= threshold, deleting the ident *)
-Fixpoint gc_go (thr : Z) (ta : list (key * Z)) (es : list (key * (list A * Z)))
+(* TimedCacheManager.gc: while the head of _time_added has a stamp <= threshold, delete(ident) -- which
+   removes the entry and ALL stamps of that ident.  The loop shortens _time_added by at least one stamp
+   per round; [fuel] = its initial length is therefore never exhausted. *)
+Fixpoint gc_go (fuel : nat) (thr : Z) (ta : list (key * Z)) (es : list (key * (list A * Z)))
   : list (key * Z) * list (key * (list A * Z)) :=
-  match ta with
-  | [] => ([], es)
-  | (k, t) :: ta' => if t >? thr then (ta, es) else gc_go thr ta' (dict_del k es)
+  match fuel with
+  | O => (ta, es)
+  | S fuel' =>
+      match ta with
+      | [] => ([], es)
+      | (k, t) :: ta' => if t >? thr then (ta, es) else gc_go fuel' thr (drop_stamps k ta') (dict_del k es)
+      end
   end.
 Definition m_gc (now : Z) (m : mgr) : mgr :=
   match m_timeout m with
   | None => m
-  | Some to => let '(ta, es) := gc_go (now - to) (m_times m) (m_entries m) in Mgr (m_timeout m) es ta
+  | Some to =>
+      let '(ta, es) := gc_go (length (m_times m)) (now - to) (m_times m) (m_entries m) in Mgr (m_timeout m) es ta
   end.
 
 Definition m_add (now : Z) (k : key) (d : list A) (m : mgr) : mgr :=
@@ -441,6 +451,7 @@ Arguments m_get {A}.
 Arguments m_has {A}.
 Arguments m_delete {A}.
 Arguments gc_go {A}.
+Arguments drop_stamps k ta : simpl never.
 Arguments m_gc {A}.
 Arguments m_add {A}.
 Arguments m_join {A}.
